@@ -847,6 +847,11 @@ pub fn boxes_for(id: &str, quick: bool) -> Vec<Box_> {
                 if quick {
                     v.push(mk("2 tasks T<=5 J<=2 C<=2 +periodic +extcurves", ana, 2, exact(5, 2), 2, &[], true));
                     v.push(mk("3 tasks T<=4 J<=1 C<=2", ana, 3, sporadic_grid(4, 1), 2, &[], true));
+                    // larger jitter next to a second task: the worst job is a later one of the busy
+                    // window and the per-offset bound is not unimodal in the offset
+                    v.push(mk("2 tasks T{2,3,5,7} J{0,3,5} C<=3", ana, 2,
+                        [2u64, 3, 5, 7].into_iter().flat_map(|t| [0u64, 3, 5].into_iter().map(move |j| ArrSpec::Sporadic { t, j })).collect(),
+                        3, &[], true));
                 } else {
                     v.push(mk("3 tasks T<=6 J<=3 C<=3", ana, 3, sporadic_grid(6, 3), 3, &[], true));
                     v.push(mk("3 tasks T<=4 J<=1 C<=2 +periodic +extcurves", ana, 3, exact(4, 1), 2, &[], true));
